@@ -481,6 +481,19 @@ Definition handle_tracker_resp (m : mgr) (peers : list (addr * bytes)) : mgr * l
   let want := MAX_UNCHOKED + MAX_OPTIMISTIC in
   spawn_n (N.to_nat (want - am_int)) m1 [].
 
+(* ---- spawn_peer_listener: an incoming connection from address a ------------------------------ *)
+(* refused while MAX_NOT_INTERESTED connected peers are ones we are not interested in; otherwise a connection task is
+   started and a fresh peer entry is put into the map under the remote address.  Repair flag, pinned by the correspondence:
+   an address that is still connected is not taken a second time (pinned code: `peers.insert` replaced the entry of the
+   live connection -- its assignment and choke state were forgotten while its task went on sending commands). *)
+Definition Session_listener_skips_connected : bool := true.
+Definition accept_peer_with (skip : bool) (m : mgr) (a : addr) : mgr * list spawn :=
+  let not_int := len (filter (fun kp => negb (p_am_interested (snd kp))) (m_peers m)) in
+  if MAX_NOT_INTERESTED <=? not_int then (m, [])
+  else if skip && (match pget (m_peers m) a with Some _ => true | None => false end) then (m, [])
+  else (with_peer m a (new_peer None (length (m_plens m))), [SpPeer a]).
+Definition accept_peer := accept_peer_with Session_listener_skips_connected.
+
 (* ---- choose_piece_index with the shuffle made explicit ------------------------------------ *)
 (* rarest: (piece_index, count) for the desired pieces, in index order *)
 Definition rarest_list (m : mgr) : list (nat * N) :=
